@@ -46,13 +46,13 @@ T = lambda m, q, v=0, tag=None: ["t", m, q, v, tag]     # noqa: E731
 BAD = lambda k="arg": ["bad", k]                        # noqa: E731
 
 A1 = ["add", 0, [T("m", "my_func"), BAD("arg"), T("m", "myXfunc"), T("m", "MY_FUNC")]]
-A2 = ["add", 1, [T("m", "foo"), T("m", "Foo.bar"), T("M", "foo"), T("m", "my_func")]]
+A2 = ["add", 1, [T("m", "foo"), T("m", "Foo.bar"), T("M", "foo"), T("m", "my_func")], -1]      # the day before
 A3 = ["add", 2, [T("m", "a%b", 1), BAD("func"), T("m", "aXXb", 1), T("", "foo", 2),
                  T("m", "a[b", 1), T("m", "a[b]c", 1), T("m", "a?c", 1), T("m", "aXc", 1), T("m", "a*b", 1),
                  T("m", "a\\b", 1)]]
 # rows of one function that differ in exactly one column each (arg_types / return_type / yield_type, NULL vs text)
 A4 = ["add", 1, [T("m", "foo", 0), T("m", "foo", 8), T("m", "foo", 9), T("m", "foo", 6), T("m", "foo", 7),
-                 T("m", "foo", 10), T("m", "foo", 8)]]
+                 T("m", "foo", 10), T("m", "foo", 8)], 2]                                         # two days later
 X1 = ["add_fault", 1, [T("m", "my_func", 1), T("m", "foo", 1)], ["interrupt", 9]]
 X2 = ["add_fault", 2, [T("M", "Foo.bar", 1), T("m", "a%b")], ["locked"]]
 X3 = ["add_fault", 0, [T("m", "aXXb"), T("M", "my_func")], ["evil", 1]]
@@ -96,7 +96,7 @@ def random_history(rnd, maxlen=40):
                 else:
                     specs.append(T(rnd.choice(["m", "m", "M", ""]), rnd.choice(sm.QUALNAMES + sm.GLOB_QUALNAMES),
                                    rnd.choice([0, 0, 0, 1, 2, 3, 6, 7, 8, 9, 10])))
-            ops.append(["add", rnd.randrange(3), specs])
+            ops.append(["add", rnd.randrange(3), specs, rnd.choice([None, None, -2, -1, 0, 1, 3])])
         elif x < 0.45:
             specs = [T(rnd.choice(["m", "M"]), rnd.choice(sm.QUALNAMES), rnd.choice([0, 1])) for _ in range(rnd.randint(1, 4))]
             f = rnd.choice(["interrupt", "interrupt", "locked", "evil"])
@@ -164,6 +164,31 @@ def campaign_positions(tier):
             if mask % 5 == 0:
                 ops.append(["filter", (mask + 1) % 3, "m", None, 2000])
         ops += [["modules", 0], ["filter", 1, "M", "", 2000]]
+        hs.append(ops)
+    return hs
+
+
+def campaign_days(tier):
+    """the same row committed on several calendar days, in every order of the days, interleaved with other rows and
+    with same-day repeats; limits from 1 to above the number of distinct rows (LIMIT / ORDER BY date(created_at) work
+    on grouped rows: a row must come back once however many days it was committed on)"""
+    hs = []
+    x = T("m", "my_func")
+    day_sets = [(-1, 0), (0, -1), (-2, -1, 0), (0, -2, -1), (-1, 0, -2), (3, None), (None, -400)]
+    if tier != "quick":
+        day_sets += [p for p in itertools.permutations((-2, -1, 0, 1))]
+    for ds in day_sets:
+        ops = []
+        for i, d in enumerate(ds):
+            others = [T("m", sm.QUALNAMES[(i + j + 1) % 7], j % 2) for j in range(i % 3)]
+            ops.append(["add", i % 3, others[:1] + [x] + others[1:] + ([x] if i == 1 else []), d])
+            ops.append(["table"])
+            for n in (1, 2):
+                ops.append(["filter", (i + n) % 3, "m", "my_func", n])
+        for n in range(1, 8):
+            ops.append(["filter", n % 3, "m", None, n])
+            ops.append(["filter", (n + 1) % 3, "m", "my", n])
+        ops += [["filter", 0, "m", None, 2000], ["modules", 1], ["reopen", 2], ["filter", 2, "m", "my_func", 2000]]
         hs.append(ops)
     return hs
 
@@ -501,7 +526,8 @@ def summarise_ops(ops):
             if len(rows) > 12:
                 rows = f"<batch of {len(rows)} traces, {len([r for r in rows if r != '<unserialisable>'])} serialisable: " \
                        f"{rows[:3]} ...>"
-            out.append(("add" if op[0] == "add" else f"add[{op[3][0]}]") + f"(conn{op[1]}, {rows})")
+            day = f", day{op[3]:+d}" if op[0] == "add" and len(op) > 3 and op[3] is not None else ""
+            out.append(("add" if op[0] == "add" else f"add[{op[3][0]}]") + f"(conn{op[1]}, {rows}{day})")
         elif op[0] == "filter":
             out.append(f"filter(conn{op[1]}, {op[2]!r}, {op[3]!r}, {op[4]})")
         elif op[0] == "modules":
@@ -533,7 +559,7 @@ def minimise(work, ops):
         if op[0] == "add" and len(op[2]) <= 12:
             j = len(op[2]) - 1
             while j >= 0:
-                cand_op = [op[0], op[1], op[2][:j] + op[2][j + 1:]]
+                cand_op = [op[0], op[1], op[2][:j] + op[2][j + 1:]] + list(op[3:])
                 cand = cur[:bi] + [cand_op] + cur[bi + 1:]
                 if fails(cand):
                     cur, op = cand, cand_op
@@ -630,6 +656,9 @@ def run(ctx):
     # 4. unserialisable traces at every position
     for ops in campaign_positions(ctx.tier):
         histories.append(("unserialisable-positions", ops))
+    # 4b. the same rows committed on different calendar days
+    for ops in campaign_days(ctx.tier):
+        histories.append(("calendar-days", ops))
     # 5. interrupt at every VM step
     for ops, total in campaign_interrupt(ctx.work, ctx.tier):
         dist["interrupt_points"] += total + 2
@@ -738,7 +767,8 @@ def run(ctx):
                 "list_modules); every sequence of <= 3 mutators (adds, interrupted / locked-out / BaseException adds, reopen) "
                 "followed by a sweep of 117 queries (3 modules x 26 prefixes incl. None, '', wildcard and case variants; "
                 "limits 0..3, 2000); random histories of 5..40 operations; batches with unserialisable traces at every "
-                "subset of positions; interrupt of the insert at every VM step; reads from inside another connection's "
+                "subset of positions; the same rows committed on different calendar days (patched clock) in every order, "
+                "limits 1..d+2; interrupt of the insert at every VM step; reads from inside another connection's "
                 "transaction; SIGKILL of writer processes at VM steps / random times; 2..16 concurrent writers + reader. "
                 "Each case is one history (or one post-fault table / concurrent answer); non-trivial = a row is committed "
                 "and a query with a non-empty correct answer is asked (campaign cases: a batch is committed); distinct by "
